@@ -524,7 +524,11 @@ impl<'a> Gen<'a> {
                     let mut es = Vec::new();
                     let mut used: Vec<String> = Vec::new();
                     for _ in 0..n {
-                        let k = self.r.pick(&["a", "b", "c", "k", "key one", "0", "n_1"]).to_string();
+                        let k = if self.cfg.odd_strings {
+                            self.r.pick(&["a", "b", "c", "k", "key one", "0", "n_1", "café", "thé_1", "x²", "ß", "_é", "naïve", "it's", "q\"q", "", "if", "a-b", "日本"]).to_string()
+                        } else {
+                            self.r.pick(&["a", "b", "c", "k", "key one", "0", "n_1"]).to_string()
+                        };
                         if used.contains(&k) {
                             continue;
                         }
